@@ -91,11 +91,15 @@ impl<I: SelectSyscall> SelectSyscall for NioSelectSyscall<I> {
             if r != 0 || t == 0 {
                 break;
             }
-            // check again after x ms, or earlier if less time is left
+            // check again after x ms, or earlier if less time is left; the time that is left
+            // is measured with the clock: a wait slice may take longer than asked, counting
+            // nominal slices would let the overshoot add up
+            let started = crate::common::now();
             let slice = t.min(x * 1_000);
             _ = EventLoops::wait_event(Some(Duration::from_micros(slice)));
             if t != u64::MAX {
-                t = t.saturating_sub(slice);
+                let waited = crate::common::now().saturating_sub(started) / 1_000;
+                t = t.saturating_sub(waited.max(slice));
             }
             if x < 16 {
                 x <<= 1;
